@@ -1,5 +1,4 @@
-import Mc.Sync.Rolling
-import Mc.Sync.Decorator
+import Mc.Sync.Full
 /-
   Recorded traces of real syncs and the vocabulary the property oracles are written in.
   Core Lean only. An oracle looks at what the *implementation* did (requests, responses, the
